@@ -12,7 +12,7 @@
 (* event.  The search is linear (every event carries all its arguments and *)
 (* results); acceptance is "every line consumed" (POSTCONDITION).          *)
 (***************************************************************************)
-EXTENDS Rel, Json, IOUtils
+EXTENDS Rel, Stages, Json, IOUtils
 
 CONSTANT Want          \* property ids whose clauses are evaluated, e.g. {"C01", "C02"}
 
@@ -80,8 +80,11 @@ RateVerdict(e) ==
         \cup (IF W("C08") /\ dom THEN C08Rate(e) ELSE {})
         \cup (IF W("C05") /\ needX /\ dom THEN C05Single(e, X, vals, "float") ELSE {})
         \cup (IF W("C07") /\ needX /\ dom THEN C07(e, m, X, vals, tau, "float") ELSE {})
+        \* the inside of the call (Stages.tla): no listed property, only `./check stages` asks for it
+        \cup (IF W("S") /\ comp /\ Ok(e) /\ "stages" \in DOMAIN e THEN StageFails(m, c, e.stages) ELSE {})
       cls == (IF wf THEN (IF comp THEN RateClasses(e, X, vals, lim) ELSE {"uncomputable"}) ELSE {"malformed"})
              \cup (IF dom THEN {"in_domain"} ELSE {}) \cup (IF Ok(e) THEN {"ok"} ELSE {"raise:" \o e.out.exc})
+             \cup (IF W("S") /\ "stages" \in DOMAIN e THEN StageClasses(e.stages) ELSE {})
   IN  [fails |-> fails, cls |-> cls, X |-> X]
 
 PredictVerdict(e) ==
